@@ -85,6 +85,15 @@ def first_expr_diff(a, b):
     return cls_at(a), cls_at(b)
 
 
+def only_logical_nesting(a, b):
+    """Key naming only: the two node images differ just in how .and. / .or. operands are grouped."""
+    def flat(x):
+        for t in ('LogicalAnd(<', 'LogicalOr(<', '>)'):
+            x = x.replace(t, '')
+        return x
+    return ('LogicalAnd(<' in a or 'LogicalOr(<' in a) and flat(a) == flat(b)
+
+
 def run(ctx):
     quick = ctx.quick
     if not ctx.replay:
@@ -95,7 +104,10 @@ def run(ctx):
         c = ctx.replay['case']
         items.append((c['origin'], c['text']))
     else:
-        items += gen_texts(ctx, 40 if quick else 600, 8 if quick else 120)
+        nfm, nlong = (40, 8) if quick else (600, 120)
+        if os.environ.get('C02_N'):          # development: smaller generated corpus
+            nfm, nlong = int(os.environ['C02_N']), max(1, int(os.environ['C02_N']) // 4)
+        items += gen_texts(ctx, nfm, nlong)
         files = T.repo_fortran_sources()
         for p in files:
             with open(p, errors='replace') as fh:
@@ -157,6 +169,8 @@ def run(ctx):
                 if ka == kb and a != '<end>' and b != '<end>':
                     ea, eb = first_expr_diff(a, b)
                     detail = f':{ea}->{eb}'
+                    if only_logical_nesting(a, b):
+                        detail = ':logical-operands-regrouped'
                 ctx.violation(f'ir-identical:{ka}->{kb}{detail}',
                               f'{origin}: the IR read back from the generated text differs from the IR it was written from at node '
                               f'{pos}:\n  written from: {a[:700]}\n  read back:    {b[:700]}', {'origin': origin, 'text': text})
@@ -178,3 +192,27 @@ def run(ctx):
         'reads); blanks inside pragma text (the backend re-assembles pragmas from their parameters)',
         'out of scope: sources with preprocessor directives (cpp needed) and sources the FP frontend rejects (both counted)',
     ]
+
+
+def selftest(ctx):
+    """Binding demonstration: corrupt single recorded fields of an accepted case; TLC must reject with the matching clause."""
+    import copy
+    src = "subroutine s(a, b)\n  integer, intent(inout) :: a, b\n\n  ! a comment\n  do a = 1, 3\n    if (a > 1 .and. b < 2) b = b + a*2\n  end do\nend subroutine s\n\n\n"
+    good = roundtrip(src)
+    b = []
+    c = copy.deepcopy(good); c['t2'][3] += ' '; b.append(('one line of the second pass changed', c, 'text-fixpoint'))
+    c = copy.deepcopy(good); c['t2'].insert(2, ''); b.append(('blank line grown inside the text', c, 'text-fixpoint'))
+    c = copy.deepcopy(good); c['ir2'][-1] = c['ir2'][-1].replace('Sum', 'Product').replace('IntLiteral[2]', 'IntLiteral[3]'); b.append(('expression tree of the re-read IR changed', c, 'ir-identical'))
+    c = copy.deepcopy(good); del c['ir2'][len(c['ir2']) // 2]; b.append(('node missing in the re-read IR', c, 'ir-identical'))
+    ok_pad = copy.deepcopy(good); ok_pad['t2'] = [''] + ok_pad['t2'] + ['', '']; ok_pad['ir2'] = ok_pad['ir2'] + ['BLANK']
+    v = ctx.validate('Trace_RoundTrip', 'Trace_RoundTrip', [good, ok_pad] + [x[1] for x in b], shards=1)
+    if not v[0][0] or not v[1][0]:
+        raise MachineryError(f'selftest: an uncorrupted / exempt case is rejected: {v[0]} {v[1]}')
+    missed = []
+    for i, (name, _c, want) in enumerate(b, 2):
+        hit = (not v[i][0]) and v[i][1] == want
+        print(f"  {'rejected' if hit else 'MISSED (!)'}: {name}: {v[i][1]}")
+        if not hit:
+            missed.append(name)
+    print(f'SELFTEST-FAILED C02: {missed}' if missed else f'SELFTEST-OK C02: {len(b)} corruptions rejected, padding with empty lines accepted')
+    return 1 if missed else 0
